@@ -22,9 +22,9 @@ func TestVerif(t *testing.T) {
 	driver.Main(t, driver.Harness{
 		ID:    "C07",
 		Level: "model_checking",
-		Rule: "(a) every DAG of U(4) (thorough U(5) for the memory store) and the curated family x every subset of nodes x every permutation of push order x {memory, file, OCI}: after the pushes Predecessors(n) of every node of the universe (present or not) " +
+		Rule: "(a) every DAG of U(4) (thorough U(5) for the memory store) and the curated family x every subset of nodes x every permutation of push order x {memory, file, OCI; file store with ForceCAS over U(3) [thorough U(4)]}: after the pushes Predecessors(n) of every node of the universe (present or not) " +
 			"must equal, as a multiset, the stored manifests whose generator edge list contains n; (b) OCI: curated shapes, root tagged or not, followed by every sequence of <= 3 operations from {Delete(x), GC, reopen rw|fs|tar}, same oracle after every step, " +
-			"map-order deviations O<=1 at the graph's map ranges; (c) 3 goroutines pushing parent/child/sibling concurrently under every schedule within D<=2. non-trivial = distinct (shape, push order) in which a parent was pushed before one of its children",
+			"map-order deviations O<=1 at the graph's map ranges; (c) 3 goroutines pushing parent/child/sibling concurrently under every schedule within D<=2; for the OCI store the directory is then opened again (read-write and as fs.FS) and must give the same relation. non-trivial = distinct (shape, push order) in which a parent was pushed before one of its children",
 		Assumptions: []string{
 			"OCI layouts key content by digest, so shapes in which two nodes share a digest are skipped for the OCI store",
 		},
@@ -109,9 +109,9 @@ func jobs(tier string) []driver.Job {
 		n      int
 		nshard int
 	}
-	cfgs := []cfg{{"memory", 4, 32}, {"file", 4, 32}, {"oci", 4, 64}}
+	cfgs := []cfg{{"memory", 4, 32}, {"file", 4, 32}, {"oci", 4, 64}, {"file-cas", 3, 4}}
 	if th {
-		cfgs = []cfg{{"memory", 5, 256}, {"file", 4, 32}, {"oci", 4, 64}}
+		cfgs = []cfg{{"memory", 5, 256}, {"file", 4, 32}, {"oci", 4, 64}, {"file-cas", 4, 32}}
 	}
 	for _, cf := range cfgs {
 		for sh := 0; sh < cf.nshard; sh++ {
@@ -319,6 +319,17 @@ func ociHist(c *driver.Ctx, d *DAG, tagRoot bool, depth int) (func(), func(*vs.R
 
 func concPush(c *driver.Ctx, d *DAG, kind string) (func(), func(*vs.Result) *driver.Fail) {
 	st, clean := NewStore(kind)
+	dir := ""
+	if kind == "oci" {
+		// same store, but the directory is known so that it can be opened again afterwards
+		clean()
+		dir = Scratch("c07conc")
+		o, err := oci.New(dir)
+		if err != nil {
+			panic(err)
+		}
+		st, clean = o, func() { os.RemoveAll(dir) }
+	}
 	// children of the three top nodes are pre-pushed; the top three are pushed concurrently
 	n := len(d.Nodes)
 	top := []int{n - 1, n - 2, n - 3}
@@ -364,6 +375,20 @@ func concPush(c *driver.Ctx, d *DAG, kind string) (func(), func(*vs.Result) *dri
 		}
 		if got, want := observe(st, d), expect(d, present); got != want {
 			return &driver.Fail{Sig: kind + ": Predecessors differs from the inverse edge list after concurrent pushes", Detail: fmt.Sprintf("%s\n--- store\n%s--- expected\n%s", d, got, want)}
+		}
+		if dir != "" {
+			// every push has returned: the layout opened again must know the same relation
+			for _, how := range []string{"rw", "fs"} {
+				ro, done, err := Reopen(dir, how)
+				if err != nil {
+					return &driver.Fail{Sig: kind + ": reopen (" + how + ") failed after concurrent pushes", Detail: err.Error()}
+				}
+				got, want := observe(ro, d), expect(d, present)
+				done()
+				if got != want {
+					return &driver.Fail{Sig: kind + ": Predecessors differs from the inverse edge list after concurrent pushes and reopen (" + how + ")", Detail: fmt.Sprintf("%s\n--- reopened store\n%s--- expected\n%s", d, got, want)}
+				}
+			}
 		}
 		return nil
 	}
